@@ -25,7 +25,7 @@ theorem tophat_dw_is_derivative (ρ : String → ℝ) (s : ℝ) (hs : 1e-3 < exp
     simp only [Gen.Filters.TopHat_dw_dlnkr]; expr_unfold; push_cast
     simp only [Function.update_apply, if_true, zpow_ofNat]
     have : (1 * 10 ^ (-3:ℤ) : ℝ) < exp s := by norm_num at hs ⊢; linarith
-    rw [if_pos (by simpa using this)]; norm_num
+    rw [if_pos (by simpa using this)]; first | (norm_num; done) | (norm_num; ring_nf; done) | expr_finish
   rw [hval]
   refine (Analysis.tophat_dw_is_derivative s).congr_of_eventuallyEq ?_
   -- near s the window is on its closed-form branch
@@ -36,7 +36,7 @@ theorem tophat_dw_is_derivative (ρ : String → ℝ) (s : ℝ) (hs : 1e-3 < exp
   filter_upwards [hopen] with t ht
   simp only [Gen.Filters.TopHat_k_space]; expr_unfold; push_cast
   simp only [Function.update_apply, if_true, zpow_ofNat]
-  rw [if_pos (by simpa using ht)]; norm_num
+  rw [if_pos (by simpa using ht)]; first | (norm_num; done) | (norm_num; ring_nf; done) | expr_finish
 
 /-- C05: the generated Gaussian `dw_dlnkr` is the true derivative of the generated Gaussian window w.r.t. ln(kR) -/
 theorem gaussian_dw_is_derivative (ρ : String → ℝ) (s : ℝ) :
@@ -44,19 +44,19 @@ theorem gaussian_dw_is_derivative (ρ : String → ℝ) (s : ℝ) :
       (evalR opq (Function.update ρ "kr" (exp s)) Gen.Filters.Gaussian_dw_dlnkr) s := by
   have hval : evalR opq (Function.update ρ "kr" (exp s)) Gen.Filters.Gaussian_dw_dlnkr = -((exp s)^2) * exp (-((exp s)^2) / 2) := by
     simp only [Gen.Filters.Gaussian_dw_dlnkr]; expr_unfold; push_cast
-    simp only [Function.update_apply, if_true, zpow_ofNat]; norm_num
+    simp only [Function.update_apply, if_true, zpow_ofNat]; first | (norm_num; done) | (norm_num; ring_nf; done) | expr_finish
   rw [hval]
   refine (Analysis.gaussian_dw_is_derivative s).congr_of_eventuallyEq (Filter.Eventually.of_forall fun t => ?_)
   simp only [Gen.Filters.Gaussian_k_space]; expr_unfold; push_cast
-  simp only [Function.update_apply, if_true, zpow_ofNat]; norm_num
+  simp only [Function.update_apply, if_true, zpow_ofNat]; first | (norm_num; done) | (norm_num; ring_nf; done) | expr_finish
 
 variable (ρ : String → ℝ)
 /-- C05: n_eff = −3(2·dlnσ/dlnm + 1) -/
 theorem n_eff_eq : evalR opq ρ Gen.Flow.MassFunction_n_eff = -3 * (2 * ρ "_dlnsdlnm" + 1) := by
-  simp only [Gen.Flow.MassFunction_n_eff]; expr_unfold; push_cast; norm_num
+  simp only [Gen.Flow.MassFunction_n_eff]; expr_unfold <;> first | (push_cast; norm_num; done) | (push_cast; norm_num; ring_nf; done) | expr_finish
 /-- the slope entering dn/dm is half the filter's dlnσ²/dlnm -/
 theorem dlnsdlnm_eq : evalR opq ρ Gen.Flow.MassFunction__dlnsdlnm = 1 / 2 * ρ "py:self.filter.dlnss_dlnm(self.radii)" := by
-  simp only [Gen.Flow.MassFunction__dlnsdlnm]; expr_unfold; push_cast; norm_num
+  simp only [Gen.Flow.MassFunction__dlnsdlnm]; expr_unfold <;> first | (push_cast; norm_num; done) | (push_cast; norm_num; ring_nf; done) | expr_finish
 /-- dln r/dln m = 1/3 for the top-hat, Gaussian and sharp-k filters -/
 theorem dlnr_dlnm_third :
     evalR opq ρ Gen.Filters.TopHat_dlnr_dlnm = 1 / 3 ∧ evalR opq ρ Gen.Filters.Gaussian_dlnr_dlnm = 1 / 3 ∧
